@@ -15,6 +15,14 @@ if ! (cd harness && cargo build --release -p vcheck >"../$LOG" 2>&1); then
   tail -30 "$LOG" >&2
   exit 2
 fi
+if [ "$PROP" = "C18" ]; then
+  # the command-line tool, rebuilt from /repo's working tree into target/cli (never into /repo/target)
+  if ! cargo build --release --bin cddl --manifest-path /repo/Cargo.toml --target-dir "$VERIF_DIR/target/cli" >"target/build_cli.log" 2>&1; then
+    echo "cddl binary build failed (see target/build_cli.log)" >&2
+    tail -30 target/build_cli.log >&2
+    exit 2
+  fi
+fi
 rm -f "target/hang_${PROP}.txt"
 ./target/harness/release/vcheck "$PROP" "$TIER"
 code=$?
